@@ -350,8 +350,8 @@ def case_bad_metric(ctx, rng, idx):
 
 
 GENS = {
-    "plain": Gen(case_plain, 900, 90000),
-    "extint": Gen(case_extint, 900, 90000),
+    "plain": Gen(case_plain, 900, 250000),
+    "extint": Gen(case_extint, 900, 250000),
     "bad-metric": Gen(case_bad_metric, 5, 5, exhaustive=True),
 }
 MIN_EVALS = {"block-diagonal": 800, "power-budget": 2000, "receive-filter": 800,
